@@ -13,6 +13,7 @@
 //!      | short-circuit: j : result : visited      (predicate false exactly on the j-th key of iter_pk)
 //!   C  | dom | vid | 1/0/both-fail              translate(rename) then translate(shift) == translate(shift . rename)
 //!   T  | dom | vid | mapid | result | calls | type kept | script = byte-level substitution | translated == original
+//!      | length of the byte-level substitution of the original script (- if a key is unmapped)
 //!      result: OK <dump> / ET <call index> / EO <class> / PANIC
 use crate::ast::{self, hex, CtxInfo, Gen, Key, Rng, World, B, N_KEYS, N_PRE};
 use crate::tree::{self, Tg, T};
@@ -531,6 +532,7 @@ fn run_ms<Ctx: ScriptContext>(w: &World, seed: u64, ci: CtxInfo, dom: &str, nval
             let r = catch_unwind(AssertUnwindSafe(|| m.translate_pk(&mut tr))).map_err(|_| ());
             let calls = tr.calls.clone();
             let (mut ty_same, mut script_ok, mut eq_orig) = ("-", "-", "-");
+            let slen = subst_script(&orig_script, &ku, &mp).map(|s| s.len().to_string()).unwrap_or("-".into());
             if let Ok(Ok(ref x)) = r {
                 ty_same = if x.ty == m.ty { "1" } else { "0" };
                 if mp.name == "identity" {
@@ -552,7 +554,7 @@ fn run_ms<Ctx: ScriptContext>(w: &World, seed: u64, ci: CtxInfo, dom: &str, nval
                 }
             }
             println!(
-                "T | {} | {} | {} | {} | {} | {} | {} | {}",
+                "T | {} | {} | {} | {} | {} | {} | {} | {} | {}",
                 dom,
                 vid,
                 mapid,
@@ -560,7 +562,8 @@ fn run_ms<Ctx: ScriptContext>(w: &World, seed: u64, ci: CtxInfo, dom: &str, nval
                 list(&calls),
                 ty_same,
                 script_ok,
-                eq_orig
+                eq_orig,
+                slen
             );
         }
         // ---- composition: rename, then a permutation of the target keys, against the composed mapping in one go
@@ -628,7 +631,7 @@ fn run_ms<Ctx: ScriptContext>(w: &World, seed: u64, ci: CtxInfo, dom: &str, nval
                         _ => "-",
                     };
                     println!(
-                        "T | {} | {} | {} | {} | {} | {} | - | {}",
+                        "T | {} | {} | {} | {} | {} | {} | - | {} | -",
                         dom,
                         vid,
                         mapid,
@@ -843,6 +846,13 @@ fn run_desc(w: &World, seed: u64, nbase: usize, mapid: &mut usize) {
                 let mut tr = MapTr { m: &mp, ku: &ku, calls: vec![] };
                 let r = catch_unwind(AssertUnwindSafe(|| d.translate_pk(&mut tr))).map_err(|_| ());
                 let (mut script_ok, mut eq_orig) = ("-", "-");
+                let slen = scripts
+                    .iter()
+                    .map(|s| subst_script(s, &ku, &mp).map(|x| x.len()))
+                    .collect::<Option<Vec<usize>>>()
+                    .and_then(|v| v.into_iter().max())
+                    .map(|n| n.to_string())
+                    .unwrap_or("-".into());
                 if let Ok(Ok(ref x)) = r {
                     if mp.name == "identity" {
                         eq_orig = if x == d { "1" } else { "0" };
@@ -877,14 +887,15 @@ fn run_desc(w: &World, seed: u64, nbase: usize, mapid: &mut usize) {
                     }
                 }
                 println!(
-                    "T | {} | {} | {} | {} | {} | - | {} | {}",
+                    "T | {} | {} | {} | {} | {} | - | {} | {} | {}",
                     dom,
                     vid,
                     mapid,
                     res_str(&r, &|x: &Descriptor<Key>| ddump(x, &kn)),
                     list(&tr.calls),
                     script_ok,
-                    eq_orig
+                    eq_orig,
+                    slen
                 );
             }
             vid += 1;
@@ -1010,7 +1021,7 @@ fn run_pol(w: &World, seed: u64, n: usize, mapid: &mut usize) {
                 }
                 _ => "-",
             };
-            println!("T | conc | {} | {} | {} | {} | - | - | {}", cv, mapid, res, list(&tr.calls), eq_orig);
+            println!("T | conc | {} | {} | {} | {} | - | - | {} | -", cv, mapid, res, list(&tr.calls), eq_orig);
         }
         cv += 1;
         // the lifted (semantic) policy of the same value
@@ -1059,7 +1070,7 @@ fn run_pol(w: &World, seed: u64, n: usize, mapid: &mut usize) {
                     }
                     _ => "-",
                 };
-                println!("T | sem | {} | {} | {} | {} | - | - | {}", sv, mapid, res, list(&tr.calls), eq_orig);
+                println!("T | sem | {} | {} | {} | {} | - | - | {} | -", sv, mapid, res, list(&tr.calls), eq_orig);
             }
             sv += 1;
         }
